@@ -41,10 +41,19 @@ pub fn peer_id(i: usize, r: &mut Rng) -> [u8; 20] {
 impl Scn {
     /// `n` peers; the node bootstraps from peer 0 and learns all peers (honest find_node answers)
     pub fn new(r: &mut Rng, n: usize, server_mode: bool, settings: dht::ServerSettings) -> Scn {
+        Scn::new_x(r, n, server_mode, settings, false)
+    }
+
+    /// `legacy`: none of the peers supports signed peers (no version in their messages): the node's signed-peers table
+    /// stays empty
+    pub fn new_x(r: &mut Rng, n: usize, server_mode: bool, settings: dht::ServerSettings, legacy: bool) -> Scn {
         simclock::set_ms(1000);
         simclock::unmap_all();
         tape_seed(r.next());
-        let peers: Vec<Peer> = (0..n).map(|i| Peer::new(peer_id(i, r))).collect();
+        let mut peers: Vec<Peer> = (0..n).map(|i| Peer::new(peer_id(i, r))).collect();
+        for p in peers.iter_mut() {
+            p.legacy = legacy;
+        }
         let node = Manual::new(&[peers[0].addr], server_mode, settings);
         let mut s = Scn { node, peers, now: 1000, sent: Vec::new(), ticks: 0, listed: None };
         s.settle();
